@@ -1,5 +1,7 @@
 import ElaVerif.Model.History
 import ElaVerif.Lemmas.History
+import ElaVerif.Model.Sites
+import ElaVerif.Gen.C20
 /-!
 # C20 — height-indexed change history rolls back exactly (`utils/history.go`)
 
@@ -116,6 +118,90 @@ theorem C20_temp_rollback (H : History σ) (s : σ) (ts : List (Change σ)) (h :
     (hinv : applyUndo ts (applyExec ts s) = s) :
     rollbackTo { H with temp := ts } (applyExec ts s) h = rollbackTo H s h :=
   temp_then_rollback H s ts h ht hlt hinv
+
+/-- Temporary changes recorded **while a height is pending** (`Append(h,…)`, `Append(0,…)`, `Commit`, then
+    `Append(h,…)` again): the next `Append` of the pending height undoes them whatever is cached and then
+    behaves exactly like the same `Append` on the history that never saw them. -/
+theorem C20_temp_while_pending (H : History σ) (s : σ) (ts : List (Change σ)) (h : Nat) (c : Change σ)
+    (ht : H.temp = []) (hb : h ≠ 0) (hinv : applyUndo ts (applyExec ts s) = s) :
+    append { H with temp := ts } (applyExec ts s) h c = append H s h c :=
+  temp_then_append H s ts h c ht hb hinv
+
+/-- non-vacuity: a pending height with one cached change, one temporary delta -/
+example : ∃ (H : History IntMap.St) (c : Change IntMap.St), H.cached.isSome ∧ H.temp = [] ∧
+    applyUndo [IntMap.add 0 5] (applyExec [IntMap.add 0 5] ({} : IntMap.St)) = ({} : IntMap.St) ∧ c.exec {} = c.exec {} := by
+  refine ⟨{ capacity := 3, cached := some ⟨4, [IntMap.add 1 1]⟩ }, IntMap.add 2 2, rfl, rfl, ?_, rfl⟩
+  simp [applyUndo, applyExec, IntMap.add]
+  funext j; unfold IntMap.upd; by_cases hj : j = 0 <;> simp [hj]
+
+/-- `RollbackSeekTo v` keeps the entry of the target height: exactly the entries of height `≤ v` stay. -/
+theorem C20_rbseek_keeps_target (H : History σ) (s : σ) (v : Nat) (hlt : v < H.height) :
+    (rollbackSeekTo H s v).1.changes = H.changes.takeWhile (fun hc => hc.height ≤ v) ∧
+    (rollbackSeekTo H s v).1.height = v ∧ (rollbackSeekTo H s v).2 = s :=
+  rollbackSeekTo_changes H s v hlt
+
+/-- `SeekTo v; RollbackSeekTo v; RollbackTo h` (h below v, within what is still stored): the state is the
+    replay of the heights `≤ h`. -/
+theorem C20_rbseek_then_rollback {cap : Nat} {H : History σ} {s : σ} {chain : List (HeightChanges σ)} {s0 : σ}
+    (g : Good cap H s chain s0) (v : Nat) (sk : Seekable H chain v) (hinv : InvAbove v chain s0) (h : Nat) (hlt : h < v)
+    (hd : depth h (upTo v chain) ≤
+      (rollbackSeekTo { H with seekHeight := v } (run (upTo v chain) s0) v).1.changes.length)
+    (hinv2 : InvAbove h (upTo v chain) s0) :
+    (rollbackTo (rollbackSeekTo { H with seekHeight := v } (run (upTo v chain) s0) v).1
+                (rollbackSeekTo { H with seekHeight := v } (run (upTo v chain) s0) v).2 h).2
+      = run (upTo h (upTo v chain)) s0 := by
+  obtain ⟨g2, _, hh⟩ := rbseek_good g v sk hinv
+  obtain ⟨g3, _, _⟩ := rollbackTo_good g2 h (by omega) hd hinv2
+  exact g3.state
+
+/-- `SeekTo v; RollbackSeekTo v; SeekTo v'`: the truncated history is again a `Good` one with a fresh
+    `seekHeight`, so `C20_seek` (and `C20_seek_commit`) apply to it. -/
+theorem C20_rbseek_then_seek {cap : Nat} {H : History σ} {s : σ} {chain : List (HeightChanges σ)} {s0 : σ}
+    (g : Good cap H s chain s0) (v : Nat) (sk : Seekable H chain v) (hinv : InvAbove v chain s0) (v' : Nat)
+    (sk2 : Seekable (rollbackSeekTo { H with seekHeight := v } (run (upTo v chain) s0) v).1 (upTo v chain) v')
+    (hinv2 : InvAbove v' (upTo v chain) s0) :
+    (seekTo (rollbackSeekTo { H with seekHeight := v } (run (upTo v chain) s0) v).1
+            (rollbackSeekTo { H with seekHeight := v } (run (upTo v chain) s0) v).2 v').2.2
+      = run (upTo v' (upTo v chain)) s0 := by
+  obtain ⟨g2, _, _⟩ := rbseek_good g v sk hinv
+  rw [seekTo_good g2 v' sk2 hinv2]
+
+/-! ## The usage discipline of the node's call sites (T-gen, regenerated on every run)
+
+`C20_refines` needs of its caller: (i) the changes of one block are appended at ONE non-zero height and
+committed at that height, heights strictly increasing; (ii) `RollbackTo` targets lie below the tip and within
+the stored capacity; (iii) no `SeekTo` / `RollbackSeekTo` in between (else the detour theorems apply).
+What the source gives, syntactically, for the two packages that use `utils.History`:
+
+* every `Commit` passes `block.Height` or `height` — the same expressions the `Append` sites of that function
+  family pass (`appendHeights`; `historyHeight` is the height of the block being connected in
+  `Arbiters.UpdateNextArbitrators`), so (i) reduces to "block heights increase by one", which is the chain's
+  invariant (checkpoints skip `block.Height <= GetHeight()`), not this table's;
+* `SeekTo` is called in exactly one function, `State.GetHistory`, which no non-test code calls: (iii) holds for
+  seeks, and the known seek findings are unreachable from the node;
+* `RollbackSeekTo` is called only by the `RollbackSeekTo` wrappers and `Checkpoint.OnRollbackSeekTo`, reached from
+  `checkpoint.Manager.RestoreTo` right after `OnInit` (fresh histories: `height >= h.height` returns at once);
+* `RollbackTo` is called only by the four rollback wrappers with the caller's target (`height`, or the loop
+  variable `i` of `Committee.RollbackTo` that walks down one height at a time).
+"Within capacity" in (ii) is NOT a fact of this table: it rests on reorganisations being shallower than
+`maxHistoryCapacity` = 720 heights (irreversibility, C30). -/
+
+open ElaVerif.Sites in
+def callsOf (m : Txt) : List NCall := Gen.C20.calls.filter (fun c => c.method == m)
+
+open ElaVerif.Sites in
+/-- T-gen: the call sites of `History.SeekTo`, `RollbackSeekTo`, `RollbackTo`, `Commit` and the height arguments
+    of `Append` in dpos/state and cr/state are as described above. -/
+theorem C20_gen_usage :
+    ((callsOf [83,101,101,107,84,111]).map (·.fn)) = [[83,116,97,116,101,46,71,101,116,72,105,115,116,111,114,121]] ∧
+    ((callsOf [82,111,108,108,98,97,99,107,83,101,101,107,84,111]).map (·.fn)).eraseDups =
+      [[67,104,101,99,107,112,111,105,110,116,46,79,110,82,111,108,108,98,97,99,107,83,101,101,107,84,111], [65,114,98,105,116,101,114,115,46,82,111,108,108,98,97,99,107,83,101,101,107,84,111], [83,116,97,116,101,46,82,111,108,108,98,97,99,107,83,101,101,107,84,111]] ∧
+    ((callsOf [82,111,108,108,98,97,99,107,84,111]).map (·.fn)).eraseDups =
+      [[67,111,109,109,105,116,116,101,101,46,82,111,108,108,98,97,99,107,84,111], [83,116,97,116,101,46,114,111,108,108,98,97,99,107,84,111], [65,114,98,105,116,101,114,115,46,82,111,108,108,98,97,99,107,84,111], [83,116,97,116,101,46,82,111,108,108,98,97,99,107,84,111]] ∧
+    ((callsOf [82,111,108,108,98,97,99,107,84,111]).all (fun c => c.arg == [104,101,105,103,104,116] || c.arg == [105])) = true ∧
+    ((callsOf [67,111,109,109,105,116]).all (fun c => c.arg == [98,108,111,99,107,46,72,101,105,103,104,116] || c.arg == [104,101,105,103,104,116])) = true ∧
+    Gen.C20.appendHeights = [[98,108,111,99,107,46,72,101,105,103,104,116], [104,101,105,103,104,116], [104,105,115,116,111,114,121,72,101,105,103,104,116]] := by
+  decide +kernel
 
 /-! ## The closure classes for which `Inv` holds -/
 
